@@ -463,7 +463,7 @@ CLAIMS["C43"] = (
     "/ binomial, Legendre / Jacobi / Kronecker by Euler's criterion and multiplicativity, bit operations, hex text, "
     "conversions, fractions in lowest terms; a second specification (Trace_C43X) then requires the three results of "
     "every case to be identical; the number-theory and exact-arithmetic workloads of C32 and C05 (thorough: also "
-    "C21, C22, C23, C03) are replayed on every back end, validated by their own specifications and compared",
+    "C21, C23) are replayed on every back end, validated by their own specifications and compared",
     "6/C43", TRUSTED + "; FLINT and Piranha are not installed in the sandbox (two of the five INTEGER_CLASS values "
     "cannot be built); whether and which factor the randomised Pollard methods find is validated per back end but not "
     "compared; the rounding of integers above 2^53 to a double (GMP truncates, Boost rounds to nearest) is not an "
